@@ -40,7 +40,13 @@ GEOS = {
     # other radius, ratio, spacing, thickness, stroke; standing on a generic base
     "G2": {"args": (0.5, 0.32, 14, 30, 0.04, 0.07, 0.4, 0.3, 2, 3, 0.1, 0.15, 0.5, 0.95),
            "base": (0.4, -0.3, 0.2, 0.1, -0.15, 0.3), "maxdev": 50, "draw": (0.6, 0.4, 0.05, 0.1)},
+    # the parametric constructor makeSP(bRad, tRad, spacing, base, platOffset, rot, plate_thickness_avg, altRot) with thick
+    # plates; it fixes the leg range to (0, 1), the range is set through the public attributes
+    "G3": {"make": (1.0, 0.7, 20, 1.15, 1, 0.1), "legs": (0.8, 1.6), "base": (0.2, 0.1, -0.3, 0.0, 0.1, -0.2), "maxdev": 55,
+           "draw": (1, 0.7, 0.05, 0.1)},
 }
+# quick tier: the makeSP geometry runs for these switch subsets only
+QUICK_G3 = ["0000", "1111"]
 # quick: none, all, and every single switch (a predicate whose margin is loosened shows only where the other switches
 # cannot repair the pose first); the re-spun start runs for the subsets in QUICK_SPUN
 QUICK_SUBSETS = ["0000", "1111", "1000", "0100", "0010", "0001"]
@@ -141,11 +147,16 @@ def taa_T(v):
 def build(geo):
     """A fresh platform of the named geometry (library calls only; nothing cached between calls)."""
     from basic_robotics.general import tm
-    from basic_robotics.kinematics.sp_model import newSP
+    from basic_robotics.kinematics.sp_model import makeSP, newSP
     g = GEOS[geo]
     base = tm() if g["base"] is None else tm(list(g["base"]))
     with quiet():
-        sp = newSP(*g["args"], base, geo, 1)
+        if "make" in g:
+            m = g["make"]
+            sp, _, _ = makeSP(m[0], m[1], m[2], base, m[3], m[4], m[5])
+            sp.leg_ext_min, sp.leg_ext_max = g["legs"]
+        else:
+            sp = newSP(*g["args"], base, geo, 1)
         sp.setDrawingParameters(*g["draw"])
         sp.setMaxAngleDev(g["maxdev"])
     return sp
@@ -469,18 +480,34 @@ def run(ctx):
     # (which contains every depth-2 history of the re-spun start, because spinCustom is in the alphabet)
     starts = ["fresh"] if thorough else ["fresh", "spun"]
     results, skipped = [], []
+    names = []
+    for bits in subsets:
+        for geo in GEOS:
+            for start in starts:
+                if start == "spun" and bits not in QUICK_SPUN:
+                    continue
+                if geo == "G3" and not thorough and (bits not in QUICK_G3 or start == "spun"):
+                    continue
+                names.append("%s|%s|%d|%s" % (geo, bits, ctx.seed, start))
+
+    # the explorations are independent and each is a chain of small levels: four of them share the worker pool at a time
+    # (results are collected in plan order, so the outcome does not depend on the interleaving)
+    import concurrent.futures as cf
     with ctx.pool() as pool:
-        for bits in subsets:
-            for geo in GEOS:
-                for start in starts:
-                    if start == "spun" and bits not in QUICK_SPUN:
-                        continue
-                    name = "%s|%s|%d|%s" % (geo, bits, ctx.seed, start)
-                    if ctx.deadline - time.time() < 45.0:       # not enough left to finish a level: say so, do not start it
-                        skipped.append(name)
-                        continue
-                    results.append((name, explorer.explore(ctx, MOD, name, depth, pool, chunk=4,
-                                                           replay_cap=600 if thorough else None)))
+        pool.always_submit = True
+
+        def one(name):
+            if ctx.deadline - time.time() < 45.0:       # not enough left to finish a level: say so, do not start it
+                return None
+            return explorer.explore(ctx, MOD, name, depth, pool, chunk=4, replay_cap=600 if thorough else None)
+        with cf.ThreadPoolExecutor(4) as tp:
+            futs = [(name, tp.submit(one, name)) for name in names]
+            for name, f in futs:
+                r = f.result()
+                if r is None:
+                    skipped.append(name)
+                else:
+                    results.append((name, r))
     cov = explorer.merge(results)
     cov["alphabet_size"] = results[0][1]["alphabet_size"]
     cov["geometries"] = list(GEOS)
